@@ -145,6 +145,13 @@ func (c *TermCtx) Bin(op Op, a, b *Term) *Term {
 		panic(fmt.Sprintf("term width mismatch %s: %d vs %d", opNames[op], a.W, b.W))
 	}
 	w := a.W
+	switch op {
+	case OpAdd, OpMul, OpAnd, OpOr, OpXor:
+		// canonical argument order for commutative operators: constants last
+		if a.IsConst() && !b.IsConst() || (!a.IsConst() && !b.IsConst() && a.id > b.id) {
+			a, b = b, a
+		}
+	}
 	if a.IsConst() && b.IsConst() {
 		x, y := a.Val, b.Val
 		var r uint64
@@ -509,6 +516,8 @@ func (c *TermCtx) Eq(a, b *Term) *Term {
 		}
 	}
 	if a.IsConst() {
+		a, b = b, a
+	} else if !b.IsConst() && a.id > b.id {
 		a, b = b, a
 	}
 	// eq(ite(c, k1, k2), k) with constants
